@@ -1,6 +1,7 @@
 package main
 
 import (
+	"os"
 	"strings"
 	"ti/base"
 	"ti/builtin"
@@ -1212,4 +1213,169 @@ func VerifBlocks(n int) {
 		verifapi.Classify(cls("block-local-visible-after-block"))
 		verifapi.Assert(verifLine(out, 6) != "Integer", "C17-local")
 	}
+}
+
+// ---- C22: definition info and hover ----
+
+func verifHasLine(out, prefix, suffix string) bool {
+	if out == "" {
+		return false
+	}
+	for _, l := range strings.Split(strings.TrimSuffix(out, "\n"), "\n") {
+		if strings.HasPrefix(l, prefix) && strings.HasSuffix(l, suffix) {
+			return true
+		}
+	}
+	return false
+}
+
+// VerifDefineInfo: a class with methods under public / private / protected sections, def
+// self., class << self, a multi-line signature, preceded by 0-2 blank lines (concretised);
+// mode 0: -i hints name the def row, c/ or i/, and the visibility in effect; mode 1: --define
+// records carry the def rows; mode 2: --hover on a call row (the row is a solver variable over
+// the call rows) shows the called method's signature.
+func VerifDefineInfo(n int) {
+	mode := verifapi.Concrete(verifapi.Int("mode", 0, 2))
+	nb := verifapi.Concrete(verifapi.Int("blank", 0, 2))
+	vis := verifapi.Concrete(verifapi.Int("vis", 0, 2))
+	s := verifInstallSym("a")
+	verifapi.WitnessList("Sym.a", verifKN(s.ka))
+	src := ""
+	for i := 0; i < nb; i++ {
+		src += "\n"
+	}
+	row := nb
+	line := func(l string) int { src += l + "\n"; row++; return row }
+	line("class Kk")
+	rPub := line("def pub_m(a)")
+	line("a")
+	line("end")
+	rCls := line("def self.cls_m")
+	line("1")
+	line("end")
+	visName := []string{"public", "private", "protected"}[vis]
+	if vis > 0 {
+		line(visName)
+	}
+	rVis := line("def vis_m")
+	line("2")
+	line("end")
+	if vis > 0 {
+		line("public")
+	}
+	line("class << self")
+	rSing := line("def sing_m")
+	line("4")
+	line("end")
+	line("end")
+	rAfter := line("def after_m")
+	line("5")
+	line("end")
+	line("end")
+	rTop := line("def top_m(x,")
+	line("y)")
+	line("x")
+	line("end")
+	line("k = Kk.new")
+	line("v = Sym.a")
+	cPub := line("k.pub_m(v)")
+	cTop := line("top_m(1, 2)")
+	cCls := line("Kk.cls_m")
+	verifapi.Witness("src", src)
+	flags := cmd.NewExecuteFlags()
+	pre := "@./a.rb:::"
+	shape := "blank" + verifItoa(nb) + "/" + visName
+	switch mode {
+	case 0:
+		flags.IsDefineInfo = true
+		verifapi.Witness("flags", "-i")
+		out := verifRunFlags(src, flags, 0)
+		verifapi.Reach("ran")
+		chk := func(id string, r int, tag, what string) {
+			verifapi.Witness(id+".prefix", pre+verifItoa(r)+":::")
+			verifapi.Witness(id+".suffix", "["+tag+"]")
+			verifapi.Classify("C22/-i-hint-wrong-row-tag-or-visibility/" + what)
+			verifapi.Assert(verifHasLine(out, pre+verifItoa(r)+":::", "["+tag+"]"), id)
+		}
+		chk("C22-i-pub", rPub, "i/public", "public-instance-method")
+		chk("C22-i-cls", rCls, "c/public", "def-self-method")
+		chk("C22-i-vis", rVis, "i/"+visName, "method-under-"+visName+"-section")
+		chk("C22-i-sing", rSing, "c/public", "class-self-block-method")
+		chk("C22-i-after", rAfter, "i/public", "method-after-visibility-section-reset")
+		chk("C22-i-top", rTop, "i/public", "top-level-method-with-multi-line-signature")
+	case 1:
+		flags.IsDefineAllInfo = true
+		verifapi.Witness("flags", "--define --row="+verifItoa(cPub))
+		out := verifRunFlags(src, flags, cPub)
+		verifapi.Reach("ran")
+		chk := func(id string, class, m string, r int, what string) {
+			l := "%:::" + class + ":::" + m + ":::./a.rb:::" + verifItoa(r)
+			verifapi.Witness(id+".prefix", l)
+			verifapi.Witness(id+".suffix", "")
+			verifapi.Classify("C22/--define-record-missing-or-wrong-row/" + what)
+			verifapi.Assert(verifHasLine(out, l, ""), id)
+		}
+		chk("C22-d-pub", "Kk", "pub_m", rPub, "public-instance-method")
+		chk("C22-d-vis", "Kk", "vis_m", rVis, "method-under-"+visName+"-section")
+		chk("C22-d-after", "Kk", "after_m", rAfter, "method-after-visibility-section-reset")
+		chk("C22-d-top", "", "top_m", rTop, "top-level-method-with-multi-line-signature")
+	case 2:
+		flags.IsHover = true
+		k := verifapi.Int("callrow", 0, 2)
+		target := verifapi.PickInt(k, cPub, cTop, cCls)
+		want := verifapi.Pick(k, "pub_m", "top_m", "cls_m")
+		verifapi.Witness("C22-hover.row", verifapi.Pick(k, verifItoa(cPub), verifItoa(cTop), verifItoa(cCls)))
+		verifapi.Witness("C22-hover.method", want)
+		out := verifRunFlags(src, flags, target)
+		verifapi.Reach("ran")
+		verifapi.Witness("engine-output", out)
+		verifapi.Classify("C22/hover-does-not-show-the-called-method/" + shape)
+		verifapi.Assert(verifHasLine(out, "%"+want+":::", ""), "C22-hover")
+	}
+	_ = shape
+}
+
+// ---- C24: the LLM navigator's call graph ----
+
+var verifCallSites = []struct{ name, text string; row int; owner string }{
+	{"top-level-statement", "foo\n", 1, "top level"},
+	{"statement-inside-method", "def bar\nfoo\nend\n", 2, "bar"},
+	{"inside-class-method", "class Kk\ndef baz\nx = foo\nend\nend\n", 3, "baz"},
+	{"call-argument", "p(foo)\n", 1, "top level"},
+	{"inside-do-block", "[1].each do |e|\nfoo\nend\n", 2, "top level"},
+	{"if-condition", "if foo == 1\n2\nend\n", 1, "top level"},
+	{"elsif-condition", "if 1 == 2\n2\nelsif foo == 1\n3\nend\n", 3, "top level"},
+	{"unless-condition", "unless foo == 1\n2\nend\n", 1, "top level"},
+	{"while-condition", "while foo == 1\n2\nend\n", 1, "top level"},
+	{"assignment-right-hand-side", "y = foo\n", 1, "top level"},
+}
+
+// VerifCallGraph: method foo plus exactly one call site (kind concretised, preceded by 0-1
+// unrelated lines) analysed with --llm-nav --target=foo: `total callers` must be 1 and the
+// caller entry must name the call's row.
+func VerifCallGraph(n int) {
+	site := verifCallSites[verifapi.Concrete(verifapi.Int("site", 0, len(verifCallSites)-1))]
+	pad := verifapi.Concrete(verifapi.Int("pad", 0, 1))
+	s := verifInstallSym("a")
+	verifapi.WitnessList("Sym.a", verifKN(s.ka))
+	src := "def foo\nSym.a\nend\n"
+	rows := 3
+	if pad == 1 {
+		src += "zz = 1\n"
+		rows++
+	}
+	src += site.text
+	callRow := rows + site.row
+	verifapi.Witness("src", src)
+	verifapi.Witness("flags", "--llm-nav --target=foo")
+	verifapi.Witness("C24.callrow", verifItoa(callRow))
+	os.Args = []string{"ti", "./a.rb", "--llm-nav", "--target=foo"}
+	flags := cmd.NewExecuteFlags()
+	flags.IsLlmNav = true
+	out := verifRunFlags(src, flags, 0)
+	verifapi.Reach("ran")
+	verifapi.Classify("C24/total-callers-differs-from-number-of-call-sites/" + site.name)
+	verifapi.Assert(verifHasLine(out, "  - total callers: 1", ""), "C24-total")
+	verifapi.Classify("C24/caller-entry-does-not-name-the-call-row/" + site.name)
+	verifapi.Assert(verifHasLine(out, "    - call point: ./a.rb:"+verifItoa(callRow), ""), "C24-row")
 }
